@@ -25,8 +25,8 @@ meta = {
     "confirmed": [
         "patch applies on a clean checkout of base_commit (git apply --check)",
         "cargo test --workspace --offline with the patch: 157 unit tests pass (repository's own suite unedited)",
-        f"cargo test --offline --test {demo[:-3]}: fails with the patch, passes without it (tools/confirm_seed.sh)",
-        "tools/try_patch.sh patch.diff <checks>: applied to /repo, checks run, /repo restored",
+        f"cargo test --offline --test {demo[:-3]}: fails with the patch, passes without it (tools/confirm_seed.sh / tools/confirm_round.sh)",
+        "tools/try_patch.sh (on /repo, restored afterwards) or tools/sb.sh (scratch worktree of the same commit) patch.diff <checks>: suite and checks run with the patch",
     ],
     "caught_by_quick": caught_by.split(",") if caught_by else [],
 }
